@@ -176,7 +176,7 @@ func (c *C) Fail(kind string, detail map[string]any) {
 	c.failed = true
 	c.w.mu.Lock()
 	defer c.w.mu.Unlock()
-	if len(c.w.violations) >= 25 {
+	if len(c.w.violations) >= violationCap {
 		return
 	}
 	c.w.violations = append(c.w.violations, Violation{
@@ -199,6 +199,8 @@ func (c *C) AddExtra(name string, n int64) {
 }
 
 type D = map[string]any
+
+var violationCap = 25
 
 // ---------------------------------------------------------------------------
 // Worker
@@ -304,7 +306,7 @@ func workerMain(o workerOpts) int {
 				continue
 			}
 			run(idx)
-			if len(w.violations) >= 25 {
+			if len(w.violations) >= violationCap {
 				break
 			}
 		}
